@@ -64,6 +64,26 @@ def check(ctx):
                           "%s -> ReactorHandle::%s for the given system" % (v, want),
                           "mode %s does not build ReactorHandle::%s for its own system entity" % (v, want))
 
+    # every registration entry point passes the mode its documentation promises
+    want = {"on": "Cleanup", "on_persistent": "Persistent", "on_revokable": "Revokable"}
+    for nm, mode in sorted(want.items()):
+        try:
+            m = A.method(prog, "ReactCommands", nm)
+        except mir.AnchorLost as e:
+            ctx.fail("C07.a", "anchor-lost:ReactCommands::%s" % nm, "", str(e))
+            continue
+        ctx.touch(m)
+        got = []
+        for b, t, fr in m.iter_calls():
+            if fr and lib.tail(mir.fn_name(fr), 2) == "ReactCommands::with":
+                for o in origins(m, t["args"][3]):
+                    if o[0] == "agg":
+                        got.append(m.blocks[o[1]]["stmts"][o[2]]["rv"]["agg"].get("vname"))
+                    else:
+                        got.append(str(o))
+        ctx.check(got == [mode], "C07.a", "ReactCommands::%s:registers-%s" % (nm, mode), "%s:%d" % (m.file, m.line),
+                  "registers with the constant ReactorMode::%s" % mode, "ReactCommands::%s registers with mode %s (documented: %s)" % (nm, got, mode))
+
     # ---- C07.b holders have releases ----
     holders = []
     for p, adt in prog.adts.items():
